@@ -10,11 +10,11 @@ def _mk(make_contract, eng):
     return make_contract(eng) if names[:1] == ('eng',) else make_contract()
 
 
-def verify_function(run, relfile, qual, make_contract, timeout_ms=10000, engine_setup=None, note=None):
+def verify_function(run, relfile, qual, make_contract, timeout_ms=10000, engine_setup=None, note=None, tag=None):
     """Returns (status, failed) with status in {'proved','failed','unsupported'} and failed the list
     of obligations that were not discharged."""
     path = run.src(relfile)
-    fq = "esr/%s::%s" % (relfile, qual)
+    fq = "esr/%s::%s" % (relfile, qual) + (" [%s]" % tag if tag else "")
     try:
         eng = Engine(path, timeout_ms=timeout_ms)
         if engine_setup:
@@ -202,3 +202,41 @@ def lemma_library(run):
     if bad:
         from vlib.common import CheckerError
         raise CheckerError("lemma library: not proved: %s" % bad)
+
+
+def generation_writers(run, tier, with_bounded=True):
+    """generate_equations: (i) the writers region under contract (one physical line per tree in the four per-shape files),
+    (ii) truncate-before-append frame obligations, (iii) bounded stand-in of the region on synthetic label arrays.
+    Returns (failed deductive obligations, failed structural obligations, found_input)."""
+    from contracts import c_generator as C
+    from pyvc import frames
+    st, failed, eng = verify_function(run, "generation/generator.py", "generate_equations", C.writers_contract, timeout_ms=5000,
+                                      note="region: the four `with open(..., 'a')` writers inside the loop over shapes; pprint / print(file=) as line effects; "
+                                           "strings abstract with length and newline count (A-str); the rest of generate_equations is not under this contract", tag="writers")
+    if st != "unsupported" and canary(run, "generation/generator.py", "generate_equations", C.writers_contract) is False:
+        raise RuntimeError("canary verified: engine vacuous on the writers region")
+
+    def f1_only(fnode):
+        if fnode.name != "generate_equations":
+            return []
+        return [o for o in frames.obligations(fnode) if "append mode" in o[0] or "shell redirection" in o[0] or "truncating mode" in o[0]]
+    sfailed = structural_generic(run, ["generation/generator.py"], f1_only, "pyvc.frames (AST analysis)",
+                                 "append-mode files are truncated earlier in the same call; shell redirections overwrite")
+    found = False
+    if with_bounded:
+        r = run.harness("rt_c08.py", {"mode": "writers", "seed": run.seed, "n_mixed": 300 if tier == "quick" else 3000}, timeout=900)
+        if r.get("astr_violations"):
+            from vlib.common import CheckerError
+            raise CheckerError("A-str assumption of the writers contract fails on %r" % r["astr_violations"][:1])
+        run.add_bounded("writers region of generate_equations: one physical line per tree in the four per-shape files", "generator.generate_equations (region extracted by structure)",
+                        "synthetic label arrays / lists with every text length %d..%d, single, mixed, ascending, descending" % (r["lengths_arrays"][0], r["lengths_arrays"][1]),
+                        r["cases"], r["distinct"], len(r["failures"]),
+                        note="also validates A-str (len(repr(s)) = len(s) + 2 + newlines, 4 * newlines <= len) on every synthetic text")
+        for f in r["failures"][:1]:
+            found = True
+            run.violation("writers:%s:%s" % (f["file"], f["what"].split(" of text")[0]), f["error"][:800],
+                          {"harness": "rt_c08.py", "payload": {"mode": "writers", "explicit": [{"all_tree": f["all_tree"], "extra_tree": f["extra_tree"]}]}})
+    run.assume("A-str (writers): the text of a label array/list has >= 2 characters, no backslash, double quote or control character other than numpy's line breaks, "
+               "each line break is followed by >= 4 characters; len() is additive over +; validated at run time by the bounded part",
+               "A-ext: PrettyPrinter(width=w).pprint(s) writes one physical line iff len(repr(s)) <= w; print(x, file=f) of a number writes one line")
+    return failed, sfailed, found
